@@ -112,5 +112,207 @@ theorem reMatch_compiled (comment : Option (List Char)) (line : List Char) :
       else pure false) = .ok (isComment comment line) := by
   cases comment <;> rfl
 
+/-! ### typed rows: column `j` of a loaded table holds what converter `j` produced -/
+
+/-- value `j` of a converted row is what converter `j` made of token `j` -/
+theorem convertRow_typed {γ : Type} (row : Nat) : ∀ (col : Nat) (convs : List (Conv γ)) (data : List (List Char))
+    (xs : List γ), data.length = convs.length → convertRow row col convs data = .ok xs →
+    ∀ (j : Nat) (c : Conv γ), convs[j]? = some c → ∃ x t, xs[j]? = some x ∧ c t = some x
+  | _, [], _, xs, _, _ => by intro j c hj; simp at hj
+  | _, _ :: _, [], _, hl, _ => by simp at hl
+  | col, c0 :: cs, v :: vs, xs, hl, h => by
+    simp only [convertRow] at h
+    cases hc : c0 v with
+    | none => simp [hc] at h
+    | some x =>
+      simp only [hc] at h
+      cases hr : convertRow row (col + 1) cs vs with
+      | error e => simp [hr] at h
+      | ok ys =>
+        simp only [hr, Except.ok.injEq] at h
+        subst h
+        intro j c hj
+        cases j with
+        | zero => simp at hj; subst hj; exact ⟨x, v, by simp, hc⟩
+        | succ j =>
+          have := convertRow_typed row (col + 1) cs vs ys (by simpa using hl) hr j c (by simpa using hj)
+          simpa using this
+
+theorem loadRows_typed {γ : Type} (convs : List (Conv γ)) (d : Delim) (c : Option (List Char)) :
+    ∀ (lines : List (List Char)) (row : Nat) (rows : List (List γ)),
+      loadRows convs d c row lines = .ok rows →
+      ∀ r ∈ rows, ∀ (j : Nat) (cv : Conv γ), convs[j]? = some cv → ∃ x t, r[j]? = some x ∧ cv t = some x
+  | [], _, rows, h => by simp [loadRows] at h; subst h; simp
+  | l :: ls, row, rows, h => by
+    simp only [loadRows] at h
+    cases hc : isComment c l with
+    | true =>
+      simp only [hc, if_true] at h
+      exact loadRows_typed convs d c ls (row + 1) rows h
+    | false =>
+      simp only [hc, Bool.false_eq_true, if_false] at h
+      cases hl : loadLine convs d row l with
+      | error e => simp [hl] at h
+      | ok vals =>
+        simp only [hl] at h
+        cases hr : loadRows convs d c (row + 1) ls with
+        | error e => simp [hr] at h
+        | ok rest =>
+          simp only [hr, Except.ok.injEq] at h
+          have ih := loadRows_typed convs d c ls (row + 1) rest hr
+          have hv : ∀ (j : Nat) (cv : Conv γ), convs[j]? = some cv → ∃ x t, vals[j]? = some x ∧ cv t = some x := by
+            unfold loadLine at hl
+            simp only at hl
+            split at hl
+            · cases hl
+            · rename_i hne
+              exact convertRow_typed row 0 convs _ vals (by simpa using hne) hl
+          intro r hr'
+          rw [← h] at hr'
+          rcases List.mem_cons.mp hr' with rfl | hr'
+          · exact hv
+          · exact ih r hr'
+
+/-- every row has a number in column `j` -/
+def NumAt {α : Type} (j : Nat) (rows : List (List (Cell α))) : Prop := ∀ r ∈ rows, ∃ x, r[j]? = some (Cell.num x)
+/-- every row has a label in column `j` -/
+def StrAt {α : Type} (j : Nat) (rows : List (List (Cell α))) : Prop := ∀ r ∈ rows, ∃ s, r[j]? = some (Cell.str s)
+
+theorem numAt_of_loadRows {α : Type} {convs : List (Conv (Cell α))} {d : Delim} {c : Option (List Char)}
+    {lines : List (List Char)} {row : Nat} {rows : List (List (Cell α))}
+    (h : loadRows convs d c row lines = .ok rows) (j : Nat) (f : Conv α) (hj : convs[j]? = some (numConv f)) :
+    NumAt j rows := by
+  intro r hr
+  obtain ⟨x, t, hx, ht⟩ := loadRows_typed convs d c lines row rows h r hr j _ hj
+  simp only [numConv] at ht
+  cases hf : f t with
+  | none => simp [hf] at ht
+  | some y => simp [hf] at ht; exact ⟨y, by rw [hx, ← ht]⟩
+
+theorem strAt_of_loadRows {α : Type} {convs : List (Conv (Cell α))} {d : Delim} {c : Option (List Char)}
+    {lines : List (List Char)} {row : Nat} {rows : List (List (Cell α))}
+    (h : loadRows convs d c row lines = .ok rows) (j : Nat) (hj : convs[j]? = some strConv) :
+    StrAt j rows := by
+  intro r hr
+  obtain ⟨x, t, hx, ht⟩ := loadRows_typed convs d c lines row rows h r hr j _ hj
+  simp only [strConv, Option.some.injEq] at ht
+  exact ⟨t, by rw [hx, ← ht]⟩
+
+theorem NumAt.tail {α : Type} {j : Nat} {r : List (Cell α)} {rows : List (List (Cell α))} (h : NumAt j (r :: rows)) :
+    NumAt j rows := fun x hx => h x (by simp [hx])
+theorem StrAt.tail {α : Type} {j : Nat} {r : List (Cell α)} {rows : List (List (Cell α))} (h : StrAt j (r :: rows)) :
+    StrAt j rows := fun x hx => h x (by simp [hx])
+
+/-- `np.array(column j)` of a numeric column = the model's `numCol` -/
+theorem cellNums_column {α : Type} (j : Nat) : ∀ (rows : List (List (Cell α))), NumAt j rows →
+    cellNums (column rows j) = .ok (numCol rows j)
+  | [], _ => rfl
+  | r :: rows, h => by
+    obtain ⟨x, hx⟩ := h r (by simp)
+    have ih := cellNums_column j rows h.tail
+    simp only [column, numCol] at ih ⊢
+    simp [List.filterMap_cons, hx, cellNums, cellNum, ih]
+
+/-- a column of labels = the model's `strCol`, as cells -/
+theorem column_str {α : Type} (j : Nat) : ∀ (rows : List (List (Cell α))), StrAt j rows →
+    column rows j = (strCol rows j).map Cell.str
+  | [], _ => rfl
+  | r :: rows, h => by
+    obtain ⟨x, hx⟩ := h r (by simp)
+    have ih := column_str j rows h.tail
+    simp only [column, strCol] at ih ⊢
+    simp [List.filterMap_cons, hx, ih]
+
+theorem zipPairs_map {α β : Type} (f g : β → α) : ∀ (rows : List β),
+    zipPairs (rows.map f) (rows.map g) = .ok (rows.map fun r => (f r, g r))
+  | [] => rfl
+  | r :: rows => by simp [zipPairs, zipPairs_map f g rows]
+
+/-- `np.array([column i, column j]).T` of two numeric columns = the model's `pairCol` -/
+theorem npPairs_columns {α : Type} (i j : Nat) : ∀ (rows : List (List (Cell α))), NumAt i rows → NumAt j rows →
+    npPairs (column rows i) (column rows j) = .ok (pairCol rows i j)
+  | [], _, _ => rfl
+  | r :: rows, hi, hj => by
+    obtain ⟨x, hx⟩ := hi r (by simp)
+    obtain ⟨y, hy⟩ := hj r (by simp)
+    have ih := npPairs_columns i j rows hi.tail hj.tail
+    have hci := cellNums_column i rows hi.tail
+    have hcj := cellNums_column j rows hj.tail
+    unfold npPairs at ih ⊢
+    simp only [column, numCol, pairCol] at ih hci hcj ⊢
+    simp only [hci, hcj] at ih
+    simp [List.filterMap_cons, hx, hy, cellNums, cellNum, hci, hcj, zipPairs, ih]
+
+theorem columns_one {γ : Type} (rows : List (List γ)) : columns 1 rows = [column rows 0] := by
+  simp [columns, List.range_succ]
+theorem columns_two {γ : Type} (rows : List (List γ)) : columns 2 rows = [column rows 0, column rows 1] := by
+  simp [columns, List.range_succ]
+theorem columns_three {γ : Type} (rows : List (List γ)) :
+    columns 3 rows = [column rows 0, column rows 1, column rows 2] := by
+  simp [columns, List.range_succ]
+
+/-! ### converters that wrap their values (`Cell.num ∘ conv`, `Cell.str`) -/
+
+/-- a converter followed by a wrapper of its value -/
+def wrapConv {β γ : Type} (f : β → γ) (cv : Conv β) : Conv γ := fun t => (cv t).map f
+
+theorem convertRow_wrap {β γ : Type} (f : β → γ) (row : Nat) : ∀ (col : Nat) (convs : List (Conv β))
+    (data : List (List Char)),
+    convertRow row col (convs.map (wrapConv f)) data = (convertRow row col convs data).map (List.map f)
+  | _, [], _ => rfl
+  | _, _ :: _, [] => rfl
+  | col, cv :: cs, v :: vs => by
+    simp only [List.map_cons, convertRow, wrapConv]
+    cases cv v with
+    | none => rfl
+    | some x =>
+      have ih := convertRow_wrap f row (col + 1) cs vs
+      simp only [Option.map_some, ih]
+      cases convertRow row (col + 1) cs vs <;> rfl
+
+theorem loadRows_wrap {β γ : Type} (f : β → γ) (convs : List (Conv β)) (d : Delim) (c : Option (List Char)) :
+    ∀ (lines : List (List Char)) (row : Nat),
+    loadRows (convs.map (wrapConv f)) d c row lines = (loadRows convs d c row lines).map (List.map (List.map f))
+  | [], _ => rfl
+  | l :: ls, row => by
+    simp only [loadRows, loadLine, List.length_map, convertRow_wrap, loadRows_wrap f convs d c ls (row + 1)]
+    cases isComment c l with
+    | true => rfl
+    | false =>
+      simp only [Bool.false_eq_true, if_false]
+      by_cases hlen : (reSplit d ((convs.length : Int) - 1) (stripPy l)).length ≠ convs.length
+      · rw [if_pos hlen, if_pos hlen]; rfl
+      · rw [if_neg hlen, if_neg hlen]
+        cases convertRow row 0 convs (reSplit d ((convs.length : Int) - 1) (stripPy l)) with
+        | error e => rfl
+        | ok vals => cases loadRows convs d c (row + 1) ls <;> rfl
+
+theorem loadTable_wrap {β γ : Type} (f : β → γ) (convs : List (Conv β)) (d : Delim) (c : Option (List Char))
+    (s : List Char) :
+    loadTable (convs.map (wrapConv f)) d c s = (loadTable convs d c s).map (List.map (List.map f)) :=
+  loadRows_wrap f convs d c _ 1
+
+theorem column_map {β γ : Type} (f : β → γ) (rows : List (List β)) (j : Nat) :
+    column (rows.map (List.map f)) j = (column rows j).map f := by
+  induction rows with
+  | nil => rfl
+  | cons r rows ih =>
+    simp only [column] at ih ⊢
+    simp only [List.map_cons, List.filterMap_cons, List.getElem?_map]
+    cases r[j]? <;> simp [ih]
+
+@[simp] theorem cellNums_map_num {α : Type} : ∀ (xs : List α), cellNums (xs.map Cell.num) = .ok xs
+  | [] => rfl
+  | x :: xs => by simp [cellNums, cellNum, cellNums_map_num xs]
+
+theorem column_length {γ : Type} (rows : List (List γ)) (j : Nat) (h : ∀ r ∈ rows, j < r.length) :
+    (column rows j).length = rows.length := by
+  induction rows with
+  | nil => rfl
+  | cons r rows ih =>
+    have hj := h r (by simp)
+    simp only [column] at ih ⊢
+    simp [List.getElem?_eq_getElem hj, ih (fun x hx => h x (by simp [hx]))]
+
 end PyIO
 end Mir
